@@ -283,7 +283,7 @@ func TestVerif_C35(t *testing.T) {
 	run.Assume("a report counts against Refinery only if both access stacks contain a frame of a non-test file of the repository; reports without such frames on one or both sides are counted separately and listed in the log, not judged")
 
 	outDir := run.OutDir()
-	budgetMs := 2600
+	budgetMs := 2400
 	seen := c35RaceFiles(outDir)
 	type sigInfo struct {
 		first  c35Report
